@@ -111,6 +111,10 @@ def main():
             sp['delay_seed'] = r.randint(0, 10**6)
             m = dict(meta)
             m['env'] = {'PYTHONHASHSEED': hs}
+            if k == 2:
+                # the main loop is delayed after every successful result for
+                # longer than a check takes (timing must not matter)
+                m['env']['VERIF_MAIN_DELAY_MS'] = '250'
             m['group'] = meta.get('n', 0)
             cfgs.append((text, sp, list(opts), m))
     items = S.validate(rep, S.execute(cfgs, label='c18'))
